@@ -283,6 +283,8 @@ def cases(tier, what="forward"):
             add("pow", [s], {"n": n}, pats=["positive"])
         for n in (2, 3, -1, -2, 1, 0):
             add("pow", [s], {"n": n}, pats=["generic"])
+        for n in (2.0, 3.0, 4.0, -2.0, -1.0, 1.0, 0.0):       # float-TYPED integer-valued exponents are fine on negative bases too
+            add("pow", [s], {"n": n}, pats=["generic"])
         for n in RPOW_N:
             add("rpow", [s], {"n": n})
     # --- matmul / addmm
